@@ -151,6 +151,8 @@ fn main() {
             };
             let ctx = make_ctx(&id, tier, false);
             install_traps(&id, &ctx.verif.join("failures"));
+            let limit = std::env::var("HV_CASE_TIMEOUT").ok().and_then(|s| s.parse().ok()).unwrap_or(900u64);
+            start_hang_watchdog(&id, &ctx.verif.join("failures"), std::time::Duration::from_secs(limit));
             let code = run_check(&ctx);
             cleanup(&ctx);
             mark_finished();
